@@ -2,6 +2,6 @@ CONSTANTS N = 4 Cyclic = FALSE
   Ids <- MIds
   Graphs <- MGraphs
 SPECIFICATION Spec
-INVARIANT NoReentry LoadsClosure
+INVARIANT NoReentry QuietIsComplete LoadsClosure InverseExact
 PROPERTY Terminates
 CHECK_DEADLOCK FALSE
